@@ -332,3 +332,19 @@ also9("C16", _layers + "; routes and middlewares as registered; no process-wide 
 also9("C17", "the module never writes the process environment; the configuration reaches the defaulting function as the caller's own pointer, struct value or loaded file.")
 also9("C18", "the gate constants are never written after their declaration (no init() that re-points them, no store through them).")
 also9("C20", _layers + "; no integer division by a divisor not tested non-zero (completion callbacks do not panic).")
+
+
+def also10(pid, text):
+    t, x, r = CLAIMS[pid]
+    CLAIMS[pid] = (t, x + " ALSO DECIDED (ninth seeded round): " + text, r)
+
+also10("C02", "no package-level state shared between checkpoint documents.")
+also10("C03", "a persisted-sequence report is never ignored (the threshold rule of C07.R3).")
+also10("C07", "the observer's gate waits for the persistence poll only — no channel receive, lock or other wait.")
+also10("C09", "the old chunk's streams are closed synchronously before the new chunk is opened; N handed to the discovery is the cluster map's vBucket count.")
+also10("C11", "openStream waits for nothing but its request and reports success only after it.")
+also10("C12", "every transient end gets its own request: openStream never reports success without making the request, and only where the request's own error is nil.")
+also10("C13", "Observer.Close/CloseEnd only set their switch (no lock, channel operation or wait); channel closes are once by construction or confirmed.")
+also10("C15", "openStream's result is the request's own outcome: no class of refusal is turned into success.")
+also10("C19", "the ticker that paces the rounds is created with the configured interval and touched nowhere else; defaulting never rewrites the configured interval or timeout.")
+also10("C20", "channel closes are once by construction or confirmed; the observer's gate (run on the client library's read loop) waits for the persistence poll only.")
